@@ -153,6 +153,9 @@ func (p *simpleExpressionPlanner) check() error {
 			return fmt.Errorf("requests like `{} || .....` are not supported")
 		}
 	}
+	if agg := p.script.Head.Aggregator; agg != nil && agg.Fn != "count" && agg.Attr == "" {
+		return fmt.Errorf("requests like `{...} | %s() ...` are not supported: the aggregated attribute is missing", agg.Fn)
+	}
 	tail := p.script.Tail
 	for tail != nil {
 		if tail.Head.AttrSelector == nil {
